@@ -1,14 +1,236 @@
-"""C18: structural clauses (see DESIGN.md section 4)."""
+"""C18 normalisation statistics, deltas, returns: additive-monoid rule for accumulate (G16),
+store formulas (G12), forwarding (G5/G1/G7), gamma == 0 short-circuit (G8/G9)."""
 from __future__ import annotations
 
+import ast
+
 from rules import fwd as R_fwd
+from sa.astutil import call_name, guards_of, parent_map, u
+from sa.defuse import ReachingDefs
+from sa.model import AnalysisError, own_calls, own_nodes
+from sa.norm import Normalizer, padd, pstr
+from sa.resolve import bind_args
 from .common import Ctx, plumbing
+
+MOD = "_feats"
+CLS = "MeanVarianceNormalization"
+STATS = ("count", "sum", "sumsq")
 
 
 def run(ctx: Ctx):
-    plumbing(ctx, 'S1')
-    R_fwd.g5_module_pairs(ctx.pkg, ctx.res, ctx.col, only=['feat_deltas', 'mean_var_norm', 'time_distributed_return'], clause='S1')
-    ctx.col.floor('g5_pairs', ctx.col.counts.get('g5_pairs', 0), 3)
-    R_fwd.g7_cli(ctx.pkg, ctx.res, ctx.col, clause='S2', only={'compute_mvn_stats_for_torch_feat_data_dir'})
-    ctx.col.floor('g7_commands', ctx.col.counts.get('g7_commands', 0), 1)
-    return dict(explanation='plumbing clauses only (work in progress)', decided=['S1'], not_decided=[])
+    col, pkg, res = ctx.col, ctx.pkg, ctx.res
+    rel = pkg.module(MOD).relname
+    acc = pkg.func(f"{MOD}::{CLS}.accumulate")
+    store = pkg.func(f"{MOD}::{CLS}.store")
+    W = lambda m: f"{rel}::{CLS}.{m}"
+
+    # ---- S1 accumulate is an additive homomorphism of the data --------------------------------------------------
+    rd = ReachingDefs(acc.node)
+    alias = {}  # local name -> statistic
+    for d in rd.defs:
+        v = d.value
+        if d.kind == "unpack" and isinstance(v, ast.Tuple) and d.slot and len(d.slot) == 1:
+            e = v.elts[d.slot[0]]
+            if isinstance(e, ast.Attribute) and u(e.value) == "self" and e.attr in STATS:
+                alias[d.name] = e.attr
+        elif d.kind == "assign" and isinstance(v, ast.Attribute) and u(v.value) == "self" and v.attr in STATS:
+            alias[d.name] = v.attr
+    # (a,b,c = self.count, self.sum, self.sumsq is bound element-wise by the def-use engine as plain assigns)
+    for d in rd.defs:
+        if d.kind == "assign" and isinstance(d.value, ast.Attribute) and u(d.value.value) == "self" and d.value.attr in STATS:
+            alias[d.name] = d.value.attr
+    updates = {}
+    others = []
+    for n in own_nodes(acc.node):
+        tgt = None
+        if isinstance(n, ast.AugAssign):
+            tgt = n.target
+        elif isinstance(n, ast.Assign) and len(n.targets) == 1:
+            tgt = n.targets[0]
+        if tgt is None:
+            continue
+        stat = None
+        if isinstance(tgt, ast.Name) and tgt.id in alias:
+            stat = alias[tgt.id]
+        elif isinstance(tgt, ast.Attribute) and u(tgt.value) == "self" and tgt.attr in STATS:
+            stat = tgt.attr
+        if stat is None:
+            continue
+        if isinstance(n, ast.AugAssign) and isinstance(n.op, ast.Add):
+            der = rd.derives(n.value)
+            reads_stats = {alias.get(d.name) for d in der.defs if d.name in alias} | {
+                x.attr for x in der.nodes() if isinstance(x, ast.Attribute) and u(x.value) == "self" and x.attr in STATS}
+            reads_stats.discard(None)
+            updates.setdefault(stat, []).append((n, reads_stats, "x" in der.params()))
+        else:
+            # initialisation to zeros under `self.count is None` is allowed
+            gs = guards_of(parent_map(acc.node), n)
+            init_ok = isinstance(n, ast.Assign) and isinstance(n.value, ast.Call) and call_name(n.value) == "torch.zeros" \
+                and any(u(t) == "self.count is None" and pol for t, pol in gs)
+            if not init_ok:
+                others.append(n)
+    for stat in STATS:
+        us = updates.get(stat, [])
+        ok = len(us) == 1 and not us[0][1] and us[0][2]
+        col.ob("G16", "S1", f"{W('accumulate')}::{stat}+=term(x)", ok,
+               f"`{stat}` must be updated exactly once, by in-place addition of a term computed from the new batch alone "
+               f"(found {[u(x[0]) for x in us]}, reading statistics {[sorted(x[1]) for x in us]}): otherwise the stored "
+               f"statistics depend on how the data was partitioned / ordered", rel, us[0][0].lineno if us else acc.line,
+               sample=[u(x[0]) for x in us])
+    col.ob("G16", "S1", f"{W('accumulate')}::no-other-writes-to-statistics", not others,
+           f"`{u(others[0]) if others else ''}` overwrites an accumulated statistic", rel, others[0].lineno if others else acc.line)
+    # the terms: frames counted, sum and sum of squares over the same flattened layout (axis 1 = everything but `dim`)
+    terms = {s: u(updates[s][0][0].value) for s in STATS if updates.get(s)}
+    xdefs = [d for d in rd.defs if d.name == "x" and d.kind == "assign"]
+    layout = u(xdefs[0].value) if len(xdefs) == 1 else None
+    col.ob("G12", "S1", f"{W('accumulate')}::terms", terms == {"count": "x.size(1)", "sum": "x.sum(1)", "sumsq": "x.square().sum(1)"}
+           and layout == "x.transpose(0, self.dim).unsqueeze(-1).flatten(1)",
+           f"the accumulated terms are {terms} over the layout `{layout}`; expected the number of frames, the sum and the "
+           f"sum of squares over axis 1 of x.transpose(0, dim)...flatten(1)", rel, acc.line, sample=terms)
+    # ---- store: formulas -------------------------------------------------------------------------------------------
+    rds = ReachingDefs(store.node)
+    alias_s = {}
+    for d in rds.defs:
+        if d.kind == "assign" and isinstance(d.value, ast.Attribute) and u(d.value.value) == "self" and d.value.attr in STATS:
+            alias_s[d.name] = d.value.attr.upper()
+    ren = lambda s: alias_s.get(s, s)
+    nz = Normalizer(rename=ren)
+    mean_def = var_def = None
+    for n in own_nodes(store.node):
+        if isinstance(n, ast.Assign) and any(u(t) == "self.mean" for t in n.targets):
+            mean_def = n
+        if isinstance(n, ast.Assign) and isinstance(n.value, ast.BinOp) and isinstance(n.value.op, ast.Sub) and "square" in u(n.value):
+            var_def = n
+    okmean = mean_def is not None and nz.expr_str(mean_def.value) == "((SUM)/(COUNT))"
+    mname = [u(t) for t in mean_def.targets if isinstance(t, ast.Name)] if mean_def is not None else []
+    okvar = var_def is not None and mname and nz.expr_str(var_def.value).replace(mname[0], "MEAN") == "((SUMSQ)/(COUNT)) + -MEAN.square()"
+    col.ob("G12", "S1", f"{W('store')}::mean=sum/count", okmean,
+           f"mean is `{u(mean_def.value) if mean_def is not None else None}`", rel, store.line)
+    col.ob("G12", "S1", f"{W('store')}::var=sumsq/count-mean^2", bool(okvar),
+           f"variance is `{u(var_def.value) if var_def is not None else None}` (normal form "
+           f"{nz.expr_str(var_def.value) if var_def is not None else None})", rel, store.line)
+    pm = parent_map(store.node)
+    bes = [n for n in own_nodes(store.node) if isinstance(n, ast.AugAssign) and isinstance(n.op, ast.Mult)]
+    okb = len(bes) == 1 and nz.expr_str(bes[0].value) == "((COUNT)/(-1 + COUNT))" and any(
+        u(t) == "bessel" and pol for t, pol in guards_of(pm, bes[0])) and var_def is not None and u(bes[0].target) == u(var_def.targets[0])
+    col.ob("G12", "S1", f"{W('store')}::bessel=count/(count-1)", okb,
+           f"Bessel's correction is `{u(bes[0]) if bes else None}`; expected var *= count / (count - 1) under `bessel`", rel, store.line)
+    stdd = [n for n in own_nodes(store.node) if isinstance(n, ast.Assign) and any(u(t) == "self.std" for t in n.targets)]
+    col.ob("G12", "S1", f"{W('store')}::std=sqrt(var)", len(stdd) == 1 and var_def is not None and u(stdd[0].value) in (
+        f"{u(var_def.targets[0])}.sqrt_()", f"{u(var_def.targets[0])}.sqrt()"), "std is not the square root of the variance", rel, store.line)
+    # store reads only the three statistics
+    reads = {x.attr for x in own_nodes(store.node) if isinstance(x, ast.Attribute) and isinstance(x.ctx, ast.Load) and u(x.value) == "self"}
+    col.ob("G16", "S1", f"{W('store')}::reads-only-the-statistics", reads <= set(STATS),
+           f"store reads {sorted(reads - set(STATS))} besides the accumulated statistics", rel, store.line, sample=sorted(reads))
+    # mean_var_norm without stored statistics uses the input's own (population) statistics
+    mvn = pkg.func(f"{MOD}::mean_var_norm")
+    pmv = parent_map(mvn.node)
+    own = {}
+    for n in own_nodes(mvn.node):
+        if isinstance(n, ast.Assign) and u(n.targets[0]) in ("mean", "std"):
+            gs = guards_of(pmv, n)
+            if any(u(t) == f"{u(n.targets[0])} is None" and pol for t, pol in gs):
+                own[u(n.targets[0])] = u(n.value)
+    col.ob("G12", "S1", f"{rel}::mean_var_norm::own-statistics-when-none-stored",
+           set(own) == {"mean", "std"} and own["mean"].endswith(".mean(1)") and own["std"].endswith(".std(1, False)"),
+           f"without stored statistics the function uses {own}; expected the input's own mean and population (unbiased="
+           f"False) standard deviation", rel, mvn.line, sample=own)
+
+    # ---- S2 forwarding ----------------------------------------------------------------------------------------------
+    R_fwd.g5_module_pairs(pkg, res, col, only={"mean_var_norm", "feat_deltas", "time_distributed_return"}, clause="S2")
+    col.floor("g5_pairs", col.counts.get("g5_pairs", 0), 3)
+    R_fwd.g7_cli(pkg, res, col, clause="S2", only={"compute_mvn_stats_for_torch_feat_data_dir"})
+    cli = pkg.func("command_line::compute_mvn_stats_for_torch_feat_data_dir")
+    ctor = [c for c in own_calls(cli.node) if call_name(c).endswith("MeanVarianceNormalization")]
+    st = [c for c in own_calls(cli.node) if isinstance(c.func, ast.Attribute) and c.func.attr == "store"]
+    okc = len(ctor) == 1 and len(ctor[0].args) == 1 and u(ctor[0].args[0]).endswith(".dim")
+    oks = len(st) == 1 and [(k.arg, u(k.value).split(".")[-1]) for k in st[0].keywords] == [("bessel", "bessel")] and not st[0].args
+    col.ob("G1", "S2", "command_line.py::compute_mvn_stats_for_torch_feat_data_dir::MeanVarianceNormalization(dim)/store(bessel)",
+           okc and oks, f"the command builds {u(ctor[0]) if ctor else None} and calls {u(st[0]) if st else None}", "command_line.py", cli.line)
+    accs = [c for c in own_calls(cli.node) if isinstance(c.func, ast.Attribute) and c.func.attr == "accumulate"]
+    col.ob("G1", "S2", "command_line.py::compute_mvn_stats_for_torch_feat_data_dir::every-tensor-accumulated-once", len(accs) == 1,
+           f"accumulate is called at {len(accs)} sites", "command_line.py", cli.line)
+
+    # ---- S3 discounted return: gamma == 0 returns the rewards themselves; layouts are transposes of each other ---
+    tdr = pkg.func("_rl::time_distributed_return")
+    pmt = parent_map(tdr.node)
+    z = [n for n in own_nodes(tdr.node) if isinstance(n, ast.Return) and any(u(t) == "not gamma" and pol for t, pol in guards_of(pmt, n))]
+    col.ob("G9", "S3", "_rl.py::time_distributed_return::gamma==0-returns-r", len(z) == 1 and u(z[0].value) == "r",
+           "with gamma == 0 the function does not return the rewards themselves (R_t = r_t)", "_rl.py", tdr.line)
+    # sibling symmetry: batch_first branch is the transpose of the other: size(1)<->size(0), unsqueeze(1)/(0)<->(0)/(1), tril<->triu,
+    # matmul(r, D) <-> matmul(D, r)
+    br = [n for n in own_nodes(tdr.node) if isinstance(n, ast.If) and u(n.test) == "batch_first"]
+    oksym = False
+    if len(br) == 1:
+        a = "\n".join(u(s) for s in br[0].body)
+        b = "\n".join(u(s) for s in br[0].orelse)
+        import re
+        swap = (a.replace("r.size(1)", "r.size(@0)").replace("unsqueeze(1)", "unsqueeze(@0)").replace("unsqueeze(0)", "unsqueeze(1)")
+                .replace("unsqueeze(@0)", "unsqueeze(0)").replace("r.size(@0)", "r.size(0)").replace(".tril()", ".triu()"))
+        swap = re.sub(r"torch\.matmul\(r, (\w+)\)", r"torch.matmul(\1, r)", swap)
+        oksym = swap == b
+    col.ob("G12", "S3", "_rl.py::time_distributed_return::layouts-are-transposes", oksym,
+           "the batch_first branch is not the transpose of the time-first branch (size axis, unsqueeze axes, tril/triu, "
+           "matmul operand order)", "_rl.py", tdr.line)
+    # the discount matrix is gamma^(t' - t) restricted to t' >= t: ratio of powers, one triangular half
+    okd = any("torch.pow(gamma, " in u(n) for n in own_nodes(tdr.node) if isinstance(n, ast.Assign))
+    col.ob("G12", "S3", "_rl.py::time_distributed_return::discount=gamma^exp", okd, "discounts are not powers of gamma", "_rl.py", tdr.line)
+    plumbing(ctx, "S2")
+    return dict(
+        explanation=(
+            "Decides for C18: (S1) accumulate updates count / sum / sumsq exactly once each, by in-place addition of terms "
+            "computed from the new batch alone (an additive homomorphism, hence invariant to partition and order in exact "
+            "arithmetic), over one flattened layout; store reads only these three and computes mean = sum/count, var = "
+            "sumsq/count - mean^2, Bessel factor count/(count-1), std = sqrt(var); without stored statistics the input's "
+            "own population statistics are used; (S2) Module->functional forwarding for normalisation, deltas and returns, "
+            "the statistics command builds MeanVarianceNormalization(dim), accumulates every tensor once and stores with "
+            "the requested Bessel flag; (S3) gamma == 0 returns the rewards themselves and the two layouts are transposes. "
+            "NOT decided: delta filter values and dimension shuffling, the triangular discount product values, unit "
+            "variance after normalisation (floating point)."),
+        decided=["S1", "S2", "S3"],
+        not_decided=["delta filter values / layout", "discount matrix values", "zero mean / unit variance numerically"],
+        assumptions=["exact (real) arithmetic for partition invariance; double precision accumulation is trusted"],
+    )
+
+
+def _mutants():
+    from selftest.mutate import Mutant as M
+    F = "_feats.py"
+    R = "_rl.py"
+    C = "command_line.py"
+    return [
+        M("running-mean-update", F, "sum_ += x.sum(1)", "sum_ += x.sum(1) - sum_ / count.clamp_min(1)", "sum+=term(x)"),
+        M("count-overwritten", F, "count += x.size(1)", "count.fill_(x.size(1))", "count+=term(x)"),
+        M("sumsq-of-sum", F, "sumsq += x.square().sum(1)", "sumsq += x.sum(1).square()", "accumulate::terms"),
+        M("count-batches-not-frames", F, "count += x.size(1)", "count += 1", "accumulate::terms"),
+        M("var-without-mean-sq", F, "var = sumsq / count - mean.square()", "var = sumsq / count - mean", "var=sumsq/count-mean^2"),
+        M("bessel-inverted", F, "var *= count / (count - 1)", "var *= (count - 1) / count", "bessel=count/(count-1)"),
+        M("bessel-always", F, "if bessel:\n            var *= count / (count - 1)", "var *= count / (count - 1)", "bessel=count/(count-1)"),
+        M("mean-by-sumsq", F, "self.mean = mean = sum_ / count", "self.mean = mean = sumsq / count", "mean=sum/count"),
+        M("own-std-bessel", F, "std = x.transpose(0, dim).unsqueeze(-1).flatten(1).double().std(1, False)", "std = x.transpose(0, dim).unsqueeze(-1).flatten(1).double().std(1, True)", "own-statistics"),
+        M("module-drops-eps", F, "return mean_var_norm(x, self.dim, self.mean, self.std, self.eps)", "return mean_var_norm(x, self.dim, self.mean, self.std)", "G5/S2"),
+        M("cli-bessel-unread", C, "mvn.store(bessel=options.bessel)", "mvn.store()", "G"),
+        M("gamma0-copy", R, "if not gamma:\n        return r", "if not gamma:\n        return r.clone()", "gamma==0-returns-r"),
+        M("layout-asymmetry", R, "discount = (discount.unsqueeze(0) / discount.unsqueeze(1)).triu()", "discount = (discount.unsqueeze(0) / discount.unsqueeze(1)).tril()", "layouts-are-transposes"),
+        M("twin:rename-last-filt", F, "last_filt", "prev_filt", "", -1, twin=True),
+    ]
+
+
+def selftest(ctx: Ctx):
+    from selftest.mutate import run_selftest
+    return run_selftest("C18", ctx.pkg.repo, _mutants(), floor=11)
+
+
+MANIFEST = dict(
+    level_text=(
+        "Static analysis (no execution): the additive-monoid rule on MeanVarianceNormalization.accumulate (each "
+        "statistic changes only by += of a term of the new batch, never reading the current statistics), which makes "
+        "the stored statistics a function of the multiset of frames - i.e. invariant to every partition and order of "
+        "accumulation in exact arithmetic; the store formulas in rational normal form; forwarding of the three Modules "
+        "and of the statistics command; the gamma == 0 short-circuit and transpose symmetry of the discounted return. "
+        "Necessary (and, for partition invariance, sufficient up to floating point) structural clauses of C18; delta "
+        "filter values and the discount product are numerical and not decided."),
+    level_note="Trusted: python ast; real-number idealisation of double-precision accumulation.",
+    technique="static analysis: additive-homomorphism (monoid) effect rule, rational normal forms, sibling transpose symmetry, forwarding completeness",
+    design_ref="DESIGN.md section 4 C18",
+)
